@@ -5,7 +5,7 @@
    grant   {id, t}          the scheduler granted thread t the turn: t runs -- with the ACTIONS of Balance, several TLC
                             steps per line -- until it passes a pause point or finishes
    end     {id, rows}       all threads have finished; rows[t] = what thread t's query returned
-   serial  {id, prog, rows} a query run alone: rows must be SerialRows(prog)  (one TLC step)
+   serial  {id, prog, rows, sv} a query run alone: rows must be SerialRows(prog), the IN-subquery values SubResult(prog)
    hom     {id, f, sc, pos, fpos, sum_pos, sum_f, f_sum, groups, op, prices}
                             one aggregate query family: per-row positions and f(position), sum(position),
                             sum(f(position)), f(sum(position)), per-group sums; judged with the Inventory operators
@@ -43,6 +43,12 @@ FirstBad(rows, obs) ==
     IF Len(obs) # Len(rows) THEN 0
     ELSE LET B == {n \in 1..Len(rows) : ~RowsMatch(<<rows[n]>>, <<obs[n]>>)}
          IN IF B = {} THEN 0 ELSE CHOOSE n \in B : \A m \in B : n <= m
+
+(* the values of the IN-subquery targets: [[rowid, [0 | 1 | 2 (NULL: the subquery returned nothing), ...]], ...] *)
+SvalsOK(P, sv) ==
+    LET R == SubResult(P) IN
+    \A n \in 1..Len(sv) : \A j \in 1..Len(sv[n][2]) :
+        sv[n][2][j] = (IF R = {} THEN 2 ELSE IF sv[n][1] \in R THEN 1 ELSE 0)
 
 Reject(e, why, t, n) ==
     PrintT(ToJson([verdict |-> "rejected", id |-> e.id, line |-> l, kind |-> e.k, why |-> why, thread |-> t, row |-> n,
@@ -110,8 +116,11 @@ TNext ==
          [] e.k = "serial" ->
               LET rows == SerialRows(e.prog)
               IN /\ l' = l + 1 /\ Stay /\ UNCHANGED dead
-                 /\ IF RowsMatch(rows, e.rows) THEN UNCHANGED nbad
-                    ELSE Reject(e, "rows differ from SerialRows", 1, FirstBad(rows, e.rows)) /\ nbad' = nbad + 1
+                 /\ IF ~RowsMatch(rows, e.rows)
+                    THEN Reject(e, "rows differ from SerialRows", 1, FirstBad(rows, e.rows)) /\ nbad' = nbad + 1
+                    ELSE IF ~SvalsOK(e.prog, e.sv)
+                    THEN Reject(e, "IN-subquery values differ from SubResult", 1, 0) /\ nbad' = nbad + 1
+                    ELSE UNCHANGED nbad
          [] e.k = "hom" ->
               LET bad == FirstFalse(HomClauses(e))
               IN /\ l' = l + 1 /\ Stay /\ UNCHANGED dead
